@@ -565,7 +565,10 @@ def freeze(o, depth=0):
 
 
 def map_state(em):
-    return freeze(dict(vars(em)))
+    """Instance state of the map that can carry mapping data (containers, arrays, molecules, floats);
+    plain int/bool/str attributes (counters, flags) are ignored."""
+    return freeze({k: v for k, v in vars(em).items()
+                   if not isinstance(v, (bool, int, str, type(None), np.integer))})
 
 
 # ---------------------------------------------------------------------------
@@ -585,7 +588,7 @@ class Tally:
 
 
 class Run:
-    def __init__(self, world, scale, confs, map_factory=None):
+    def __init__(self, world, scale, confs, map_factory=None, needed=None):
         from gaddlemaps import ExchangeMap
         self.world, self.scale = world, float(scale)
         self.confs = confs
@@ -595,8 +598,13 @@ class Run:
         self.ref, self.tgt = world.new_ref(), world.new_tgt()
         self.tgt_fp = fingerprint(self.tgt)
         self.args, self.arg_resids, self.arg_rigid = [], [], []
-        for c in confs:
-            if c.get("mode") == "REF":
+        for k, c in enumerate(confs):
+            if needed is not None and k not in needed:
+                # argument objects that no operation of this sequence touches are not built
+                self.args.append(None)
+                self.arg_resids.append(None)
+                self.arg_rigid.append(None)
+            elif c.get("mode") == "REF":
                 self.args.append(self.ref)
                 self.arg_resids.append([int(r) for r in self.ref.resids])
                 self.arg_rigid.append({"R": np.eye(3).tolist(), "t": [0, 0, 0], "c": [0, 0, 0]})
@@ -606,7 +614,7 @@ class Run:
                 self.arg_rigid.append(c.get("rigid"))
         self.tracked = {"ref": self.ref, "tgt": self.tgt}
         for k, a in enumerate(self.args):
-            if a is not self.ref:
+            if a is not self.ref and a is not None:
                 self.tracked[f"arg{k}"] = a
         self.snaps = {k: snap(v) for k, v in self.tracked.items()}
         self.results = []
@@ -803,7 +811,10 @@ def _state_changes(before, after):
 
 def run_ops(world, scale, confs, ops, map_factory=None):
     """Returns (fails, evals).  `fails` = [(kind, step, detail)]."""
-    run = Run(world, scale, confs, map_factory=map_factory)
+    needed = {int(op[1]) for op in ops if op[0] in ("call", "setarg")}
+    if any(op[0] == "rej" and op[1] in ("Residue", "ndarray") for op in ops):
+        needed.add(len(confs) - 1)
+    run = Run(world, scale, confs, map_factory=map_factory, needed=needed)
     for op in ops:
         run.do(op)
     return run.fails, run.evals
@@ -892,6 +903,10 @@ def random_ops(world, rng, n_pool, length):
     ops = []
     nr, nt = len(world.refpos), len(world.tgtpos)
     rej_kinds = list(NON_MOLECULES) + list(world.species_kinds)
+    if length >= 12:
+        # every kind of operation occurs at least once in a long history (same obligation set for every seed)
+        ops = [["call", rng.randrange(n_pool)], ["rej", rng.choice(rej_kinds)], ["call", rng.randrange(n_pool)],
+               ["mut", "tgt", "move", [round(rng.uniform(-2, 2), 3) for _ in range(3)]], ["call", rng.randrange(n_pool)]]
     while len(ops) < length:
         x = rng.random()
         if x < 0.55 or not ops:
